@@ -2215,31 +2215,34 @@ func contextAccessors(c *core.Ctx) {
 	}
 	if f := p.Func("hap", "(*context).GetSessionForConnection"); f != nil {
 		good, n := true, 0
-		core.Instrs(f, func(i ssa.Instruction) {
-			r, isR := i.(*ssa.Return)
-			if !isR || len(res(r)) != 1 || core.IsNilConst(res(r)[0]) {
+		// a session is handed back only on a path that took the ok branch of the assertion it came from (path by path: the result may be
+		// one variable that is nil on the other paths)
+		core.EnumPaths(f, 2, 5000, func(pa core.Path) {
+			r := pa.Returns()
+			if r == nil || len(res(r)) != 1 {
+				return
+			}
+			v := pa.ResolveAt(len(pa)-1, res(r)[0])
+			if core.IsNilConst(v) {
 				return
 			}
 			n++
-			// a session is handed back only from the ok branch of the assertion it came from
-			for _, s := range core.Sources(res(r)[0]) {
-				e, isE := s.(*ssa.Extract)
-				if !isE {
-					good = false
-					continue
-				}
-				ta, isTA := e.Tuple.(*ssa.TypeAssert)
-				if !isTA || !ta.CommaOk {
-					good = false
-					continue
-				}
-				okFact := core.TrueFact(func(v ssa.Value) bool {
-					e2, ok := v.(*ssa.Extract)
-					return ok && e2.Tuple == ssa.Value(ta) && e2.Index == 1
-				})
-				if !core.Dominated(r, okFact) {
-					good = false
-				}
+			e, isE := v.(*ssa.Extract)
+			if !isE {
+				good = false
+				return
+			}
+			ta, isTA := e.Tuple.(*ssa.TypeAssert)
+			if !isTA || !ta.CommaOk || e.Index != 0 {
+				good = false
+				return
+			}
+			okFact := core.TrueFact(func(x ssa.Value) bool {
+				e2, ok := x.(*ssa.Extract)
+				return ok && e2.Tuple == ssa.Value(ta) && e2.Index == 1
+			})
+			if !pathEstablishes(pa, okFact) {
+				good = false
 			}
 		})
 		c.Check(good && n > 0, "context-session-lookup", f.Pos(), "the session is returned on the branch where the entry is a session", "GetSessionForConnection returns the asserted value where the assertion failed (test inverted): existing sessions are not found, connections are treated as unverified / unencrypted")
